@@ -653,6 +653,12 @@ def steps_builder(case, pick):
              "resize_num": pick([3, 4, 11]), "resize_den": 2, "capi": pick([0, 0, 1])}]
 
 
+def steps_builder_cpp(case, pick):
+    st = steps_builder(case, pick)
+    st[0]["capi"] = 0            # append(array, at) exists on the C++ class only
+    return st
+
+
 def builder_values_equal(got, want):
     """as values_equal, but a record may already show fields that a record still being filled has
     introduced (the shared record type is updated when the field is named): such extra fields must be None"""
